@@ -174,7 +174,7 @@ walk:
 
 func init() {
 	checks["C21"] = eng.Check{
-		Rule:        "code images of 1..2 blocks (at 0x1000 and 0x2000 / directly adjacent / 0x1000 and 2^64-16 / 0x1000 and a block ending exactly at 2^64 / with an empty block before, between or directly behind), each block every sequence of <=3 words from {addi, sw, beq, jal, lr.w(A only), auipc, jalr (linking), 00000000, ffffffff} followed by 0..3 extra bytes (second block 1 word in quick), in both input orders, rv64ima and rv32i: parser.Parse must fail iff the reference walk meets an undecodable or truncated word, else yield the exact tiling with the image bytes, the front end's text/type and effects of equal kinds/keys/widths that are equivalent to the front end's lifting under 8 pre-states and agree with the reference machine (so a parser that keeps state across positions cannot hide behind its own lifting). Non-trivial = image whose layout is valid (non-overlapping).",
+		Rule:        "code images of 1..2 blocks (at 0x1000 and 0x2000 / directly adjacent / 0x1000 and 2^64-16 / 0x1000 and a block ending exactly at 2^64 / with an empty block before, between or directly behind), each block every sequence of <=3 words from {addi, sw, beq, jal, lr.w(A only), auipc, jalr (linking), 00000000, ffffffff} followed by 0..3 extra bytes (second block 1 word in quick), in both input orders, rv64ima and rv32i: parser.Parse must fail iff the reference walk meets an undecodable or truncated word, else yield the exact tiling with the image bytes, the front end's text/type and effects of equal kinds/keys/widths that are equivalent to the front end's lifting under 8 pre-states and agree with the reference machine (so a parser that keeps state across positions cannot hide behind its own lifting). Plus, for rv64ima and rv32ima, every mnemonic with all 4^3 choices of rd, rs1, rs2 from {x0,x5,x6,x31} (every register coincidence) in two-word images at two addresses. Non-trivial = image whose layout is valid (non-overlapping).",
 		Assumptions: []string{"blocks are non-empty and built through the real elf.newBlock/newMemory (hook)"},
 		Run: func(r *eng.Run) {
 			words := []uint32{0x00100093, 0x00112023, 0x00208463, 0xffdff06f, 0x1000a1af, 0x00001197, 0x000300e7, 0x00000000, 0xffffffff}
@@ -237,6 +237,35 @@ func init() {
 						do(c21Case{cfg, []c21Block{{0xfffffffffffffff0, contents[i]}, {0x1000, "93001000"}}})
 						// ... and ending exactly at 2^64
 						do(c21Case{cfg, []c21Block{{-uint64(len(contents[i]) / 2), contents[i]}, {0x1000, "93001000"}}})
+					}
+				})
+			}
+			// every mnemonic with every register coincidence (all 4^3 choices of rd, rs1, rs2 from
+			// {x0, x5, x6, x31}): one-word images followed by an addi, at two addresses
+			for _, cfg := range []rvx.Cfg{{XLEN: 64, M: true, A: true}, {XLEN: 32, M: true, A: true}} {
+				cfg := cfg
+				rows := rvref.Rows(cfg.Ref())
+				r.Par(len(rows), func(i int) {
+					regs := []uint32{0, 5, 6, 31}
+					seen := map[uint32]bool{}
+					for _, rd := range regs {
+						for _, rs1 := range regs {
+							for _, rs2 := range regs {
+								ws := buildWords(rows[i], rd, rs1, rs2, false)
+								if len(ws) > 3 {
+									ws = []uint32{ws[0], ws[len(ws)/2], ws[len(ws)-1]}
+								}
+								for _, w := range ws {
+									if seen[w] {
+										continue
+									}
+									seen[w] = true
+									hex := fmt.Sprintf("%x", rvx.WordBytes(w))
+									do(c21Case{cfg, []c21Block{{0x1000, hex + "93001000"}}})
+									do(c21Case{cfg, []c21Block{{0x7ffffff0, "93001000" + hex}}})
+								}
+							}
+						}
 					}
 				})
 			}
